@@ -68,6 +68,8 @@ var oddValues = [][]model.Frac{
 	{{Num: 4487180253729041, Den: 4503599627370496}},
 	{{Num: 4243235273913139, Den: 4503599627370496}},
 	{{Num: 1, Den: 2}, {Num: 775228998357265, Den: 2251799813685248}},
+	// lengths that round to no tick at all: the instance adds nothing to the piece
+	{{Num: 1, Den: 2000}}, {{Num: 1, Den: 100000}}, {{Num: 1, Den: 4000}, {Num: 1, Den: 4001}}, {{Num: 1, Den: 1921}},
 }
 
 func genTrackPiece(r *rand.Rand, maxLen int) model.Piece {
@@ -410,6 +412,28 @@ func checkC06(c *core.Ctx) {
 			return
 		}
 		c.Nontrivial(fmt.Sprintf("hugebeats%d", i))
+	})
+
+	// value lists whose printed forms collide under a 32-bit FNV-1a hash (witnesses handed over with the seeded change
+	// C06-mutZ1: a memo keyed by such a fingerprint gives the later list the length of the earlier one). This replays
+	// known collisions; a collision of another hash function would need its own witnesses.
+	fr := func(n, d uint64) model.Frac { return model.Frac{Num: n, Den: d} }
+	collisions := [][2][]model.Frac{
+		{{fr(4, 1), fr(8, 1), fr(3, 2)}, {fr(2, 1), fr(1, 1), fr(1, 3), fr(1, 2), fr(3, 4)}},
+		{{fr(4, 1), fr(8, 1), fr(3, 4)}, {fr(2, 1), fr(1, 1), fr(1, 3), fr(1, 2), fr(3, 2)}},
+		{{fr(45, 90)}, {fr(693, 365)}},
+	}
+	c.Stream("fingerprints", len(collisions)*2, func(i int, r *rand.Rand) {
+		pair := collisions[i%len(collisions)]
+		a, b := pair[0], pair[1]
+		if i >= len(collisions) {
+			a, b = b, a
+		}
+		ch := func() *model.ChordSpec { return &model.ChordSpec{Deg: model.SimpleInterval(r, 7), Symbol: "m7"} }
+		p := model.Piece{Inst: []model.Instance{{Chord: ch(), Values: a}, {Values: one()}, {Chord: ch(), Values: b}, {Values: a}, {Chord: ch(), Values: one()}}}
+		if compareTracks(c, "fingerprints", i, p, []int{2, 3}, false) {
+			c.Nontrivial(fmt.Sprintf("fingerprints%d", i))
+		}
 	})
 
 	c.Stream("beyond32", c.N(4, 24), func(i int, r *rand.Rand) {
